@@ -13,6 +13,7 @@
                      same ids and values and re-serialise it byte-identically.
 -/
 import Rtp.Spec.Wire
+import Rtp.Spec.WireDecode
 import Rtp.Model.HeaderExt
 import Rtp.Pred.C01
 namespace Rtp.Pred.C03
@@ -80,9 +81,6 @@ def canonOK (buf : Bytes) (o : Obs) : Bool := o.re == .ok buf
 def wire (w : Wire) (buf : Bytes) (qs : List UInt8) (o : Obs) : Bool :=
   (!w.WF || (acceptsOK w o && accessorsOK w qs o)) && remarshalOK o && (!w.canonical || canonOK buf o)
 
-/-- `c03.mut`: any byte string -/
-def mutOK (o : Obs) : Bool := remarshalOK o
-
 /-- known finding `c03_reserved_id` (DESIGN §7 row 2): a well-formed one-byte block that contains
     the reserved id 15 with at least one block byte after it (when the id-15 byte is the very last
     byte of the block nothing is left unread and the offset comes out right) -/
@@ -94,6 +92,26 @@ def appbitsRegion (w : Wire) : Bool := w.WF && w.appbits
 
 /-- the hypotheses of the `_partial` theorems -/
 def wireWF (w : Wire) : Bool := w.WF && w.ignored == 0 && !w.appbits
+
+/-- `c03.mut`: any byte string.  Sentence (2) always applies; when the string is (still) the image
+    of a well-formed description — `Wire.describe` finds it and re-checks it with `Wire.encode` —
+    sentence (1) applies to it as well. -/
+def mutOK (buf : Bytes) (qs : List UInt8) (o : Obs) : Bool :=
+  match Wire.describe buf with
+  | some w => wire w buf qs o
+  | none => remarshalOK o
+
+/-- region of a byte string: that of its description, if it has one -/
+def mutRegion (buf : Bytes) : Option String :=
+  match Wire.describe buf with
+  | some w => if reservedRegion w then some "c03_reserved_id" else if appbitsRegion w then some "c03_twobyte_appbits" else none
+  | none => none
+
+def mutWF (buf : Bytes) : Bool :=
+  match Wire.describe buf with
+  | some w => wireWF w
+  | none => false
+
 
 /-! ### standalone views (kind `c03.view`) -/
 
